@@ -35,7 +35,19 @@ const allocSlack = 1 << 20
 func allocBound(inputLen int) uint64 { return allocSlack + 1024*uint64(inputLen) }
 
 // guard runs f on input; reports panics and runaway allocation. entry names the entry point.
+var budgetNoted bool
+
 func guard(c *fw.Ctx, entry, locus, mut string, input []byte, f func()) {
+	// the budget is honoured inside cases too (thorough-tier cases enumerate millions of inputs each): once it has
+	// run out the remaining inputs are skipped and the run says so (exhaustive:false), it never fails for that
+	if c.Expired() {
+		if !budgetNoted {
+			budgetNoted = true
+			c.NotExhaustive("budget ran out inside a case: remaining inputs of the running cases were skipped")
+		}
+		c.Count("inputs_skipped_after_budget", 1)
+		return
+	}
 	c.Eval(1)
 	c.BeginBytes(entry+"|"+locus+"|"+mut, entry+" "+locus+" "+mut, input)
 	before := allocated()
